@@ -129,17 +129,20 @@ def make_chain(ctx, nx=1, ny=1, start1=0, periodic=False, with_second=True):
     return r1, r2, integ
 
 
-def run_zshift(periodic):
-    """Real calcZShift on a two-region chain (nx=1, ny=1)."""
+def run_zshift(periodic, single=False):
+    """Real calcZShift on a two-region chain (nx=1, ny=1); single=True: ONE region that is its
+    own upper and lower neighbour (the periodic core of a single null)."""
 
     def run(ctx):
         from hypnotoad.core import mesh as M
         from vc.shim import patched
         from vc.sym import spec_mode
 
-        r1, r2, integ = make_chain(ctx, periodic=periodic)
+        r1, r2, integ = make_chain(ctx, periodic=periodic, with_second=not single)
+        if single:
+            r1.connections["lower"] = 1
         # preconditions: R > 0, Bp != 0 at the fine-contour nodes
-        for r in (r1, r2):
+        for r in (r1,) if single else (r1, r2):
             for c in r.contours:
                 for k in range(c.npts):
                     ctx.assume(c.fine.positions[k, 0] > 0)
@@ -164,7 +167,7 @@ def run_zshift(periodic):
 
         with spec_mode():
             locmap = {"corners": (0, 0), "xlow": (0, 1), "ylow": (1, 0), "centre": (1, 1)}  # (contour parity, point parity)
-            for reg, base in ((r1, None), (r2, r1)):
+            for reg, base in ((r1, None),) if single else ((r1, None), (r2, r1)):
                 for loc, (cpar, ppar) in locmap.items():
                     arr = getattr(reg.zShift, loc)
                     for i in range(arr.shape[0]):
@@ -179,10 +182,12 @@ def run_zshift(periodic):
                                 want = getattr(base.zShift, face)[i, -1] + own
                             ctx.oblige(arr[i, j] == want, "%s.zShift.%s[%d,%d] = %strapezoid integral from the start of its contour" % (reg.name, loc, i, j, "" if base is None else "value at the end of the previous region + "))
             ctx.oblige(And(r1.zShift.ylow[0, 0] == 0, r1.zShift.corners[0, 0] == 0, r1.zShift.corners[1, 0] == 0), "zShift is zero at the start of the chain")
-            ctx.oblige(And(r2.zShift.ylow[0, 0] == r1.zShift.ylow[0, -1], r2.zShift.corners[0, 0] == r1.zShift.corners[0, -1], r2.zShift.corners[1, 0] == r1.zShift.corners[1, -1]), "zShift continuous across the join r1->r2")
+            last = r1 if single else r2
+            if not single:
+                ctx.oblige(And(r2.zShift.ylow[0, 0] == r1.zShift.ylow[0, -1], r2.zShift.corners[0, 0] == r1.zShift.corners[0, -1], r2.zShift.corners[1, 0] == r1.zShift.corners[1, -1]), "zShift continuous across the join r1->r2")
             if periodic:
-                ctx.oblige(r1.ShiftAngle.centre[0, 0] == r2.zShift.ylow[0, -1] - r1.zShift.ylow[0, 0], "ShiftAngle.centre = zShift at the end of the LAST region of the chain - zShift at its start")
-                ctx.oblige(And(r1.ShiftAngle.xlow[0, 0] == r2.zShift.corners[0, -1] - r1.zShift.corners[0, 0], r1.ShiftAngle.xlow[1, 0] == r2.zShift.corners[1, -1] - r1.zShift.corners[1, 0]), "ShiftAngle.xlow likewise")
+                ctx.oblige(r1.ShiftAngle.centre[0, 0] == last.zShift.ylow[0, -1] - r1.zShift.ylow[0, 0], "ShiftAngle.centre = zShift at the end of the LAST region of the chain - zShift at its start")
+                ctx.oblige(And(r1.ShiftAngle.xlow[0, 0] == last.zShift.corners[0, -1] - r1.zShift.corners[0, 0], r1.ShiftAngle.xlow[1, 0] == last.zShift.corners[1, -1] - r1.zShift.corners[1, 0]), "ShiftAngle.xlow likewise")
             else:
                 import z3 as _z3
 
@@ -192,18 +197,20 @@ def run_zshift(periodic):
     return run
 
 
-def run_poloidal_distance(periodic, start1):
+def run_poloidal_distance(periodic, start1, single=False):
     def run(ctx):
         from hypnotoad.core import mesh as M
         from vc.shim import patched
         from vc.sym import spec_mode
 
-        r1, r2, _ = make_chain(ctx, periodic=periodic, start1=start1, ny=2 if start1 else 1)
+        r1, r2, _ = make_chain(ctx, periodic=periodic, start1=start1, ny=2 if start1 else 1, with_second=not single)
+        if single:
+            r1.connections["lower"] = 1
         with patched((M, "print", lambda *a, **k: None)):
             M.MeshRegion.calcPoloidalDistance(r1)
         with spec_mode():
             locmap = {"corners": (0, 0), "xlow": (0, 1), "ylow": (1, 0), "centre": (1, 1)}
-            for reg, base in ((r1, None), (r2, r1)):
+            for reg, base in ((r1, None),) if single else ((r1, None), (r2, r1)):
                 for loc, (cpar, ppar) in locmap.items():
                     arr = getattr(reg.poloidal_distance, loc)
                     for i in range(arr.shape[0]):
@@ -217,9 +224,10 @@ def run_poloidal_distance(periodic, start1):
                                 face = "ylow" if cpar == 1 else "corners"
                                 want = getattr(base.poloidal_distance, face)[i, -1] + own
                             ctx.oblige(arr[i, j] == want, "%s.poloidal_distance.%s[%d,%d] = %sdistance from the first point of ITS OWN contour" % (reg.name, loc, i, j, "" if base is None else "value at the end of the previous region + "))
-            ctx.oblige(And(r2.poloidal_distance.ylow[0, 0] == r1.poloidal_distance.ylow[0, -1], r2.poloidal_distance.corners[1, 0] == r1.poloidal_distance.corners[1, -1]), "poloidal_distance continuous across the join")
+            if not single:
+                ctx.oblige(And(r2.poloidal_distance.ylow[0, 0] == r1.poloidal_distance.ylow[0, -1], r2.poloidal_distance.corners[1, 0] == r1.poloidal_distance.corners[1, -1]), "poloidal_distance continuous across the join")
             if periodic:
-                ctx.oblige(r1.total_poloidal_distance.centre[0, 0] == r2.poloidal_distance.ylow[0, -1], "total_poloidal_distance = value at the end of the last region")
+                ctx.oblige(r1.total_poloidal_distance.centre[0, 0] == (r1 if single else r2).poloidal_distance.ylow[0, -1], "total_poloidal_distance = value at the end of the last region")
         return r1
 
     return run
